@@ -36,9 +36,45 @@ def _histories(tier):
     return H.histories(tier, max_ops=8, objects=('A', 'B'), copies=('deepcopy',))
 
 
+def _array_range_histories():
+    """Fixed shapes (added after seed c07-b): an array formula lying wholly inside a referenced rectangle; the rectangle is
+    supplied two or three times with different values, directly and through a defined name, with plain recalculations between."""
+    vals = [[10.0, 20.0, 30.0, 40.0, 50.0, 60.0], [1.0, 2.0, 3.0, 4.0, 5.0, 6.0], [-1.0, 0.5, 'zz', True, 7.0, 8.0]]
+    for (h, w, extra) in [(2, 1, 'row'), (1, 2, 'col'), (2, 2, 'row'), (3, 1, 'none'), (2, 1, 'none')]:
+        for arr_kind in ('scale', 'plus', 'if'):
+            # sources A1.. , array formula at D1, referenced rectangle = array area (+ one extra row/col)
+            src = [0, 0, 1, 1, h, w]
+            r2, c2 = h, 3 + w
+            R2, C2 = (r2 + 1, c2) if extra == 'row' else (r2, c2 + 1) if extra == 'col' else (r2, c2)
+            rect = [0, 0, 1, 4, R2, C2]
+            arr_rect = [0, 0, 1, 4, r2, c2]
+            tree = {'scale': ['bin', '*', ['rng', src], ['num', 2.0]], 'plus': ['bin', '+', ['rng', src], ['ref', [0, 0, 6, 1]]],
+                    'if': ['fn', 'IF', ['bin', '>', ['rng', src], ['num', 1.0]], ['rng', src], ['num', 0.0]]}[arr_kind]
+            cells = [{'at': [0, 0, r, c], 'v': float(r * 2 + c)} for r in range(1, h + 1) for c in range(1, w + 1)]
+            cells.append({'at': [0, 0, 6, 1], 'v': 100.0})
+            cells.append({'at': [0, 0, 1, 4], 'f': tree, 'arr': [r2, c2]})
+            if extra != 'none':
+                er, ec = (R2, 4) if extra == 'row' else (1, C2)
+                for i in range(w if extra == 'row' else h):
+                    cells.append({'at': [0, 0, er + (0 if extra == 'row' else i), ec + (i if extra == 'row' else 0)], 'v': 5.0 + i})
+            cells.append({'at': [0, 0, 8, 1], 'f': ['fn', 'SUM', ['rng', arr_rect]]})
+            cells.append({'at': [0, 0, 8, 2], 'f': ['fn', 'SUM', ['rng', rect]]})
+            cells.append({'at': [0, 0, 8, 3], 'f': ['bin', '+', ['fn', 'SUM', ['name', 0]], ['num', 1.0]]})
+            spec = {'books': [{'name': 'b0.xlsx', 'sheets': ['S1']}], 'cells': cells, 'names': [{'name': 'TOTAL_IN', 'rect': rect}]}
+            nr, nc = R2, C2 - 3
+
+            def rows(v):
+                return [[v[(i * nc + j) % len(v)] for j in range(nc)] for i in range(nr)]
+            for path in ('dict', 'file'):
+                ops = [['calc', 'A', [['rect', rect, rows(vals[0])]], None], ['calc', 'A', [['rect', rect, rows(vals[1])]], None],
+                       ['calc', 'A', [], None], ['calc', 'A', [['name', 0, rows(vals[2])]], None], ['calc', 'A', [['rect', rect, rows(vals[0])]], [[0, 0, 8, 1]]]]
+                yield {'k': 'history', 'spec': spec, 'path': path, 'ops': ops}
+
+
 STRATEGIES = {'histories': _histories}
 
 
 def parts(tier, seed):
     q = tier == 'quick'
-    return [('hyp', 'histories', 2000 if q else 16000, 10)]
+    return [('hyp', 'histories', 2000 if q else 16000, 10),
+            ('enum', 'array-range-histories', list(_array_range_histories()), 2, False)]
